@@ -6,6 +6,9 @@ from ..curve import *
 VO = ['Props/C01.vo', 'Tie/SqrtArk.vo']      # decode/encode call the table-driven square root: its tie to the source is part of the obligation
 FILES = ['Props/C01.v', 'Proofs/Codec.v', 'Proofs/Reach.v', 'Proofs/ByteLevel.v', 'Proofs/Final.v', 'Tie/Curve.v', 'Tie/Loops.v', 'Proofs/Instance.v']
 BUILDS = ('ark', 'min')
+DEC_OPS = {'ark': ['el.dec', 'el.dec.decompress', 'el.dec.tf_enc', 'el.dec.tf_encref', 'el.dec.tf_arr', 'el.dec.tf_slice', 'el.dec.enc_tf_slice', 'el.deser'],
+           'min': ['el.dec', 'el.dec.tf_enc', 'el.dec.tf_encref', 'el.dec.tf_arr', 'el.dec.tf_slice', 'el.dec.enc_tf_slice']}
+ENC_OPS = {'ark': ['el.enc', 'el.enc.from_elem', 'el.enc.from_ref', 'el.enc.arr_from', 'el.ser'], 'min': ['el.enc', 'el.enc.from_elem', 'el.enc.from_ref', 'el.enc.arr_from']}
 
 def elements(ctx, build, scale):
     pool = Pool(build, ctx.rng.fork('pool-' + build), n_rand=10 * scale)
@@ -22,6 +25,9 @@ def build_scripts(ctx, scale):
         strings = near_miss_strings(ctx.rng, pool.encodable, n_flip=8 * scale) + [ctx.rng.bits(256) for _ in range(40 * scale)] + \
                   [ctx.rng.bits(253) & ~1 for _ in range(80 * scale)]
         lines = ['el.dec %s' % hexb(s) for s in strings]
+        # every decoding entry point (conversions from arrays / slices / Encoding, stream deserialisers) on the structured strings
+        for s in strings[:90]:
+            for op in DEC_OPS[b][1:]: lines.append('%s %s' % (op, hexb(s)))
         lines += ['el.enc %s' % E(c) for c in els] + ['el.enc.to_field %s' % E(c) for c in els[:40 * scale]]
         scripts[b] = lines
     return scripts
@@ -36,14 +42,21 @@ def search(ctx, scale, hints):
             t = h['line'].split()
             if t[0].startswith('el.dec') and len(t) > 1 and len(t[1]) == 64: strings.append(int.from_bytes(bytes.fromhex(t[1]), 'little'))
             if t[0].startswith('el.enc') and len(t) > 1 and t[1].count(',') == 3: els.append(parseE(t[1]))
-        lines = []
-        for s in strings:
-            lines.append('el.dec %s' % hexb(s)); lines.append('el.enc $%d' % (len(lines) - 1))
+        lines = []; pairs = []
+        for k, s in enumerate(strings):
+            # through every pair (decoding entry point, encoding entry point) in turn
+            dop = DEC_OPS[b][k % len(DEC_OPS[b])] if k >= 40 else 'el.dec'; eop = ENC_OPS[b][(k // 3) % len(ENC_OPS[b])] if k >= 40 else 'el.enc'
+            lines.append('%s %s' % (dop, hexb(s))); lines.append('%s $%d' % (eop, len(lines) - 1)); pairs.append(s)
+        for s in strings[:60]:
+            for dop in DEC_OPS[b][1:]:
+                lines.append('%s %s' % (dop, hexb(s))); lines.append('el.enc $%d' % (len(lines) - 1)); pairs.append(s)
         out = harness.run_script(b, lines)
+        out = [o[3:] if o.startswith('OK ') and len(o) == 67 else o for o in out]
+        strings = pairs
         for i, s in enumerate(strings):
             d, e = out[2 * i], out[2 * i + 1]
             if d.startswith('OK') and e != hexb(s):
-                fails.append(('decoding %s succeeds but re-encoding gives %s (build %s)' % (hexb(s), e, b),
+                fails.append(('%s of %s succeeds but re-encoding (%s) gives %s (build %s)' % (lines[2 * i].split()[0], hexb(s), lines[2 * i + 1].split()[0], e, b),
                               {'build': b, 'script': lines[2 * i:2 * i + 2], 'output': [d, e]}, {'dir': 'enc_dec', 'build': b}))
             if d == 'PANIC':
                 fails.append(('decoding %s panics (build %s)' % (hexb(s), b), {'build': b, 'script': [lines[2 * i]], 'output': [d]}, {'dir': 'panic', 'build': b}))
